@@ -41,14 +41,27 @@ RULE = ('schedules = lists of thread ids consumed at every traced source line of
         'overlap inside the traced code; distinct by (site, executed line trace).  Loads: 4 v4 fixtures (odd sizes, applycal G/B/K, '
         'ragged chunks, power-scaled weights, lost chunks) x {synchronous, threads with 1,2,3,4,8,16 workers, model '
         'scheduler with policies random/greedy/fifo/lifo/reverse x early/late execution x 1..5 workers}; a case is '
-        '(fixture, index, scheduler, event list)')
+        '(fixture, index, scheduler, event list).  Extension: loads also of a 1x1 single-chunk set and a set with a separate flag '
+        'stream, with one extra index shape per fixture (boolean masks, scalars only, empty, negative/strided, ellipsis, index '
+        'list) separately / jointly / jointly into out=; sites sensor_dag* (SensorCache whose virtual sensors form a random DAG: '
+        'chains, diamonds, repeated inputs, raw only; 3 threads x 2 requests incl. an unknown name), concat_* '
+        '(ConcatenatedSensorCache: different / same sensors, sensor missing in one cache, virtual, selection), s3x_* '
+        '(get_chunk with truncated responses -> read retries with back-off, lost chunks, empty and missing buckets), v4_props '
+        '(sensor-backed properties of a v4 data set); model-only cases: random template DAGs x wants x schedules x '
+        'locked/unlocked (wire_205), property-map histories and schedules (206), server states x buckets x schedules (207), '
+        'interleavings of request programs and arbitrary event lists (208/209)')
 ASSUMPTIONS = ['CPython switches threads only between source lines of the traced files (line-level atomicity); '
                'C-level races inside numpy/dask/requests are not explored',
                'instrumented lock objects replace the threading.Lock/RLock attributes of the objects under test (a '
                'guard of any other type is left in place)',
                'threaded load = single-threaded load is proved for graphs of pure tasks under the event semantics of '
                'dask.local.get_async; purity/idempotence of the real tasks is observed (digests), not proved',
-               'the real thread pool runs are non-deterministic samples; the model scheduler runs are seeded']
+               'the real thread pool runs are non-deterministic samples; the model scheduler runs are seeded',
+               'sensor cache theorems: virtual-sensor templates form a well-founded graph (no sensor needs itself) and the '
+               'creating functions are pure functions of the values they fetch (observed on the real functions, not proved)',
+               'verified-bucket theorem: the answer of the server about a bucket does not change during the run',
+               'a stalled run of a site that talks to the loopback HTTP endpoint is repeated once under the same schedule '
+               'before it is reported']
 
 LOCKED_SAFE = 42
 
@@ -1628,8 +1641,25 @@ def site_s3x(ctx, plan_name):
         inuse, clashes, made, borrowed = {}, [], [], {}
         inner_factory, inner_get, inner_put = pool._factory, pool.get, pool.put
 
+        class LoggedList(list):
+            # the free list: its pop / append happen inside the pool lock, so logging them here gives the TRUE order of
+            # the pool operations (a wrapper around get / put could be pre-empted between the operation and the log entry)
+            def pop(self, *a):
+                events.append((0, s.current))
+                return list.pop(self, *a)
+
+            def append(self, x):
+                events.append((3, s.current))
+                list.append(self, x)
+
+            def insert(self, i, x):
+                events.append((3, s.current))
+                list.insert(self, i, x)
+        pool._pool = LoggedList(pool._pool)
+
         def factory():
             session = inner_factory()
+            events.append((0, s.current))
             made.append(session)
             sid = len(made)
             orig = session.request
@@ -1660,12 +1690,10 @@ def site_s3x(ctx, plan_name):
 
         def get():
             item = inner_get()
-            events.append((0, s.current))
             borrowed[s.current] = item
             return item
 
         def put(item):
-            events.append((3, s.current))
             if borrowed.get(s.current) is item:
                 borrowed[s.current] = None
             inner_put(item)
